@@ -18,13 +18,15 @@ def _is_input(a):
     return isinstance(a, Arr) and isinstance(a.tags.get('input'), tuple)
 
 
-def _ancestors(a, stop=None, limit=6000):
+def _ancestors(a, stop=None, limit=6000, values_only=False):
     """all arrays `a` is computed from (parents, operands of expressions, bases of selections, arrays stored into its buffer)"""
     seen, todo, out = set(), [a], []
     while todo and len(seen) < limit:
         x = todo.pop()
         if not isinstance(x, Arr) or id(x) in seen:
             continue
+        if values_only and x.dt in ('int', 'bool') and x is not a:
+            continue          # (an index array / a mask selects entries, its own history is not part of the value)
         seen.add(id(x))
         out.append(x)
         if stop is not None and stop(x):
@@ -217,7 +219,7 @@ def _one_path(run, repo, sc, res, scen, d, meas, F):
                                                         (isinstance(o_, Arr) and o_.ndim == 0 and o_.origin in ('finfo', 'eps')) for o_ in dex[1]) and \
                 any(isinstance(o_, Arr) and _strip(o_).origin == 'sum' for o_ in dex[1]):
             summed = [o_ for o_ in dex[1] if isinstance(o_, Arr) and _strip(o_).origin == 'sum'][0]
-            if any((a_.tags.get('expr') or ('',))[0] == 'truediv' or a_.origin in ('truediv', 'norm') for a_ in _ancestors(summed)):
+            if any((a_.tags.get('expr') or ('',))[0] == 'truediv' or a_.origin in ('truediv', 'norm') for a_ in _ancestors(summed, values_only=True)):
                 # (an environment that is re-normalised on the way keeps the sum of order one: the guard is then harmless -- not decided here)
                 raise AnalysisError(f'{scen}: measured site {j}: the normalising sum is clipped by a constant, and the weights are re-scaled on the way: not decided')
             run.oblige('D3', (ENTRY, scen, j, 'normaliser'), False)
